@@ -17,7 +17,7 @@ LABELSETS = {
 }
 LAYERS = ["a", "b", "c"]
 MD_KEYS = ["k", "col", "x"]
-MD_VALUES = [0, 1, 2, "r", "s", True, None, 1.5, [1, 2], {"z": 1}, "blue", 3]
+MD_VALUES = [0, 1, 2, "r", "s", True, None, 1.5, [1, 2], [2, 1], {"z": 1}, "blue", 3, ["b", "a", "c"]]
 CRIT_VALUES = [2, 3, "r", "s", "blue"]
 
 OPS = {
@@ -66,6 +66,8 @@ class Gen:
 
     def weight(self):
         r = self.rng
+        if r.random() < 0.05:
+            return 0 if self.cfg["wtype"] == "int" else 0.0  # a zero weight is a weight
         if self.cfg["wtype"] == "int":
             return r.randint(1, 5)
         return r.randint(1, 20) / 4
@@ -305,6 +307,34 @@ class Gen:
             return op
         raise HarnessError("no generator for " + name)
 
+    def propose_ctor(self, model):
+        r = self.rng
+        k = self.kind
+        op = {"op": "ctor", "_first": True}
+        if r.random() < 0.5:
+            ns = r.sample(self.U, r.randint(1, len(self.U)))
+            op["nmd"] = [[n, self.md(True) if r.random() < 0.7 else {}] for n in ns]
+        frs, seen = [], set()
+        for _ in range(r.randint(0, 5)):
+            f = self.rand_frag()
+            key = model.key(f)
+            if key not in seen:
+                seen.add(key)
+                frs.append(f)
+        if frs:
+            op["es"] = [f["e"] for f in frs]
+            if k == "T":
+                op["ts"] = [f["t"] for f in frs]
+            if k == "M":
+                op["layers"] = [f["layer"] for f in frs]
+            if model.weighted and r.random() < 0.7:
+                op["ws"] = [self.weight() for _ in frs]
+            if r.random() < max(0.3, self.cfg["md_density"]):
+                op["mds"] = [self.md(True) if r.random() < 0.7 else {} for _ in frs]
+        if r.random() < 0.4:
+            op["hmeta"] = self.md(True)
+        return op
+
     def propose_reject(self, model):
         """An operation the API must refuse (the fault kind of this engine)."""
         r = self.rng
@@ -471,6 +501,14 @@ def generate_history(rng, cfg, extra_propose=None, max_actors=4):
     names = sorted(cfg["opw"])
     weights = [cfg["opw"][n] for n in names]
     stats = {"ambiguous_skipped": 0}
+    if rng.random() < cfg.get("ctor_rate", 0.3):
+        op = g.propose_ctor(models[0])
+        op["a"] = 0
+        try:
+            models[0].apply(op)
+            ops.append(op)
+        except Ambiguous:
+            stats["ambiguous_skipped"] += 1
     for _step in range(cfg["length"]):
         for _attempt in range(30):
             a = rng.randrange(len(models))
@@ -607,7 +645,19 @@ def run_world(pid, case, mode="refine", handlers=None, on_step=None):
             oc = w.stats["outcomes"]
             oc[name + ":deriv"] = oc.get(name + ":deriv", 0) + 1
             continue
-        if name == "copy":
+        if name == "ctor":
+            outcome = model.apply(op)  # Ambiguous unless this is the pristine first object
+            exc = None
+            try:
+                obj = O.construct(kind, case["weighted"], op)
+                w.actors[a][0] = obj
+            except Exception as e:  # noqa
+                raise Violation(f"{pid}/constructor-raised", {"op": op, "exception": repr(e)})
+            w.note_keys(model, op)
+            w.probe("constructed_with_arguments")
+            states.add(digest(model.content()))
+            state_changing += 1
+        elif name == "copy":
             exc = None
             try:
                 new = obj.copy()
